@@ -26,6 +26,8 @@ var c17Sources = []string{
 	"github.io", "a.github.io", "b.a.github.io", "io", "blogspot.com", "a.blogspot.com", "b.a.blogspot.com", "example.local", "local", "a.example.local",
 	"1.2", "1.2.1.2", "2.1", "example", "com", "www", "a.io", "example.uk", "example.jp", "a.a",
 	"m7.m6.m5.m4.m3.m2.m1.example.com", "n9.n8.n7.n6.n5.n4.n3.n2.n1.a.github.io",
+	// pages under a public suffix that lies below a registrable name (the request goes to that name or to a sibling)
+	"mybucket.s3.amazonaws.com", "s3.amazonaws.com", "amazonaws.com", "x.global.ssl.fastly.net", "shop.city.kawasaki.jp", "a.b.kawasaki.jp",
 }
 
 func refDomain(host string) string {
@@ -210,7 +212,7 @@ func init() {
 		// country suffixes, wildcard and exception rules, private suffixes): the suffix itself, a name under it, a name below that
 		for _, suf := range []string{"arpa", "in-addr.arpa", "ip6.arpa", "home.arpa", "e164.arpa", "uri.arpa", "urn.arpa", "iris.arpa", "com.au", "co.nz", "com.br", "co.jp", "ne.jp", "k12.ca.us", "pvt.k12.ma.us", "cc.ny.us",
 			"gov.uk", "ac.uk", "sch.uk", "com.cn", "xn--55qx5d.cn", "edu.pl", "gov.pl", "tokyo.jp", "nom.br", "mm", "com.mm", "bd", "co.bd", "er", "fk", "kawasaki.jp", "city.kawasaki.jp", "nagoya.jp", "city.nagoya.jp",
-			"s3.amazonaws.com", "compute.amazonaws.com", "us-east-1.elb.amazonaws.com", "cloudfront.net", "herokuapp.com", "appspot.com", "web.app", "pages.dev", "netlify.app", "azurewebsites.net", "gitlab.io",
+			"s3.amazonaws.com", "amazonaws.com", "fastly.net", "global.ssl.fastly.net", "compute.amazonaws.com", "us-east-1.elb.amazonaws.com", "cloudfront.net", "herokuapp.com", "appspot.com", "web.app", "pages.dev", "netlify.app", "azurewebsites.net", "gitlab.io",
 			"dyndns.org", "blogspot.co.uk", "blogspot.com.au", "co.com", "uk.com", "us.com", "eu.org", "test", "example", "invalid", "localhost", "onion", "internal", "lan", "home", "corp"} {
 			hosts = append(hosts, suf, "a."+suf, "b.a."+suf)
 		}
